@@ -389,6 +389,7 @@ struct RunCfg {
   int progress; // 0 nullptr, 1 recorder, 2 default argument
   int cb_yields;
   bool first_spawn_fails = false;
+  bool threads_unknown = false; // num_threads == 0 and hardware_concurrency() == 0: the call may refuse (logic_error) or pick a count itself
   int offset_kind; // 0: 0, 1: 1, 2: 100, 3: near the type's maximum
   int slack; // distance of end_value from the type's maximum (offset_kind 3)
 };
@@ -510,6 +511,12 @@ void run_typed(const RunCfg& c, const char* type_name) {
     if (!calls.empty()) fail("blocks/non_divisor_ran", cfg_key, "callbacks ran although the block size was rejected");
     return;
   }
+  if (threw_logic && c.threads_unknown) {
+    // refusing to guess a thread count is an answer; it must come before any work was done
+    if (!calls.empty()) fail("blocks/non_divisor_ran", cfg_key, "callbacks ran although the call refused its thread count");
+    VS_PROBE("hardware_concurrency_unknown_refused");
+    return;
+  }
   if (threw_logic) fail("unexpected_logic_error", cfg_key, "the call threw logic_error('" + what + "') for a valid configuration");
 
   if (vshim::g_flags.joinable_destroyed) fail("threads/not_joined", cfg_key, "a worker thread was still joinable when its std::thread was destroyed (std::terminate)");
@@ -518,7 +525,7 @@ void run_typed(const RunCfg& c, const char* type_name) {
   if (vshim::g_flags.threads_joined != vshim::g_flags.threads_created) fail("threads/not_joined", cfg_key, "created " + std::to_string(vshim::g_flags.threads_created) + " threads, joined " + std::to_string(vshim::g_flags.threads_joined));
   // (fewer OS threads than num_threads are fine - a short range does not need them all, and the calling thread may
   // take part as one of the numbered workers; what C16 limits is the thread NUMBERS, checked below)
-  if (vshim::g_flags.threads_created > c.eff_threads && !vshim::g_flags.spawn_failed) fail("threads/wrong_count", cfg_key, "asked for " + std::to_string(c.eff_threads) + " threads, " + std::to_string(vshim::g_flags.threads_created) + " were created");
+  if (vshim::g_flags.threads_created > c.eff_threads && !vshim::g_flags.spawn_failed && !c.threads_unknown) fail("threads/wrong_count", cfg_key, "asked for " + std::to_string(c.eff_threads) + " threads, " + std::to_string(vshim::g_flags.threads_created) + " were created");
 
   std::map<uint64_t, int> seen;
   bool any_true_returned = false;
@@ -531,7 +538,7 @@ void run_typed(const RunCfg& c, const char* type_name) {
           "callback invoked with " + std::to_string(sv) + " which is outside [" + std::to_string((int64_t)bits<IntT>(start)) + "," + std::to_string((int64_t)bits<IntT>(end)) + ") (" + type_name + ", " +
               std::to_string(c.eff_threads) + " threads" + (wraps ? ", end_value within num_threads*block_size of the type's maximum so the cursor wraps" : "") + ")");
     }
-    if (call.thread_num >= (uint64_t)c.eff_threads) fail("callback/bad_thread_num", cfg_key, "callback got thread_num " + std::to_string(call.thread_num) + " with " + std::to_string(c.eff_threads) + " threads");
+    if (call.thread_num >= (uint64_t)(c.threads_unknown ? std::max(vshim::g_flags.threads_created, 1) : c.eff_threads)) fail("callback/bad_thread_num", cfg_key, "callback got thread_num " + std::to_string(call.thread_num) + " with " + std::to_string(c.eff_threads) + " threads");
     if (++seen[call.value] > 1) vfail("callback/invoked_twice", cfg_key, "callback invoked twice for value " + std::to_string(sv));
     any_true_returned |= call.returned_true;
   }
@@ -605,8 +612,10 @@ static void run() {
   c.offset_kind = choose(5, "offset");
   c.slack = choose(9, "slack");
   c.threads = large ? 1 + choose(8, "threads.large") : choose(5, "threads"); // 0..4 (1..8 for long ranges)
-  unsigned hw = (unsigned)pick({3, 1, 2, 4}, "hardware_concurrency");
+  // (0: "not computable", which the standard allows hardware_concurrency() to say)
+  unsigned hw = (unsigned)pick({3, 1, 2, 4, 3, 2, 4, 0}, "hardware_concurrency");
   c.eff_threads = c.threads == 0 ? (int)hw : c.threads;
+  c.threads_unknown = c.threads == 0 && hw == 0;
   c.block = 1;
   c.block_divides = true;
   if (c.func != 0) {
@@ -740,7 +749,7 @@ int main(int argc, char** argv) {
   e.thorough_cap_s = 900;
   e.rule =
       "one run = one configuration (function of the three, IntT of six, range length 0..6 [thorough 0..12, occasionally 13..120 with up to 8 threads] at offset 0/1/100/near the type's maximum/negative (ending at -1, 0 or 1), block size, "
-      "1..4 threads or 0=hardware_concurrency (reported as 1..4), set of values whose callback returns true, progress function nullptr/recorder/default) executed under one seeded "
+      "1..4 threads or 0=hardware_concurrency (reported as 1..4, or 0 = not computable), set of values whose callback returns true, progress function nullptr/recorder/default) executed under one seeded "
       "schedule (strategy first/uniform/PCT/starve/round-robin; a scheduling point before every atomic operation, at thread start, join, sleep and inside the "
       "callback; progress timer may fire early); distinct = distinct hash of (configuration, sequence of (operation, from-task, to-task)); non-trivial = more than "
       "one worker, non-empty range and a strategy other than run-to-completion";
@@ -751,7 +760,7 @@ int main(int argc, char** argv) {
   e.components = {{"phosg Tools.hh: parallel_range, parallel_range_blocks, parallel_range_blocks_multi, their thread functions and parallel_range_default_progress_fn", "real, unmodified header from the repository working tree (macro retargeting in the harness TU)"},
       {"std::thread, std::atomic, usleep, now()", "stub: scheduler-controlled shims (engines/sim_par.cc, vsim/vpar.cc)"},
       {"callback and progress recorder", "harness"}};
-  e.expected_probes = {"two_workers_in_callback", "progress_timer_fired_while_workers_busy", "early_exit_skipped_values", "two_callbacks_returned_true", "end_value_near_type_max", "values_split_between_workers", "progress_fn_called", "negative_start_value", "second_call_in_process", "thread_creation_failure_reported"};
+  e.expected_probes = {"two_workers_in_callback", "progress_timer_fired_while_workers_busy", "early_exit_skipped_values", "two_callbacks_returned_true", "end_value_near_type_max", "values_split_between_workers", "progress_fn_called", "negative_start_value", "second_call_in_process", "thread_creation_failure_reported", "hardware_concurrency_unknown_refused"};
   e.expected_faults = {"thread_creation_fails"};
   return driver_main(argc, argv, e);
 }
